@@ -13,7 +13,10 @@
 (*   - every pair (and, for composite keys, every triple) with the         *)
 (*     expected relation,                                                  *)
 (*   - for the structural codecs every field-presence combination with     *)
-(*     the expected outcome (round-trip / encoder must refuse).            *)
+(*     the expected outcome (round-trip / encoder must refuse),            *)
+(*   - for every length-bounded field the lengths 0, 1, max-1, max, max+1  *)
+(*     with the expected outcome (round-trip through every decoder and     *)
+(*     through a real store / engine, or refused by the encoder).          *)
 (* It is NOT a proof about bit patterns: the Go harness (cmd/c15) maps     *)
 (* every abstract value to several concrete values, calls the real         *)
 (* encoders/decoders and compares with the relation printed here.          *)
@@ -160,7 +163,7 @@ Transitive(tri) == \A t \in Range(tri) : (t[4] <= 0 /\ t[5] <= 0) => (t[6] <= 0 
 (*   expect = "roundtrip"    : Bytes() then ReadFrom() gives an equal value *)
 (*   expect = "encode-error" : the encoder must refuse (v0 header + metadata)*)
 TruncClasses == {"absent", "one", "mid", "max"}       \* TxMetadata.truncatedTxID (0 is not a tx id)
-ExtraClasses == {"absent", "len1", "mid", "len256"}   \* TxMetadata.extra: 1..256 bytes (maxExtraLen = 256)
+ExtraClasses == {"absent", "len1", "mid", "len255", "len256"}   \* TxMetadata.extra: 1..256 bytes (maxExtraLen = 256)
 TxMd == {[trunc |-> t, extra |-> e] : t \in TruncClasses, e \in ExtraClasses}
 TxMdEmpty(m) == m.trunc = "absent" /\ m.extra = "absent"
 
@@ -192,6 +195,21 @@ ExpEntrySeq == {<<e>> : e \in ExpEntry}
 Exports == {[entries |-> es, extra |-> x, truncated |-> FALSE] : es \in ExpEntrySeq, x \in {"absent", "len1", "len256"}}
            \cup {[entries |-> es, extra |-> "absent", truncated |-> TRUE] : es \in {s \in ExpEntrySeq : \A q \in 1..Len(s) : s[q].vlen # "empty"}}
 
+\* Length-bounded fields: every field whose length is limited (by a constant of the format, a store option or a
+\* declared column length) is taken through the lengths 0, 1, max-1, max and max+1.  max+1 must be refused by the
+\* encoder / constructor / commit; an empty key and a transaction without entries must be refused as well; every other
+\* length must round-trip - through Bytes/ReadFrom where the codec is a pure function AND through a real store:
+\* commit, ReadTxHeader, ReadTx, ReadValue, index read, ExportTx -> ReplicateTx (SQL / document values: insert, read
+\* back by primary key and through the index).  What an encoder accepted, every decoder must read.
+\*   "txmd.extra+truncatedTxID" is the metadata record of maximal length (both attributes present).
+LenClasses == {"0", "1", "max-1", "max", "max+1"}
+BoundedFields == {"txmd.extra", "txmd.extra+truncatedTxID", "store.key", "store.value", "store.entries",
+                  "sql.varchar", "sql.blob", "sql.varchar.indexed", "sql.blob.indexed", "doc.string.indexed"}
+BoundExpect(f, c) == IF c = "max+1" THEN "refuse"
+                     ELSE IF c = "0" /\ f \in {"store.key", "store.entries"} THEN "refuse"
+                     ELSE "roundtrip"
+Bounds == {[field |-> f, len |-> c, expect |-> BoundExpect(f, c)] : f \in BoundedFields, c \in LenClasses}
+
 \* SQL rows: one column per type, every NULL / NOT NULL presence pattern; the non-NULL value is one
 \* of two representatives of the type ("lo" = smallest class, "hi" = largest class / longest string).
 RowTypes == <<"INTEGER", "FLOAT", "TIMESTAMP", "UUID", "BOOLEAN", "VARCHAR", "BLOB">>
@@ -220,7 +238,8 @@ Facts ==
               "composite-triples", [i \in 1..Len(Composites) |-> Len(Composites[i].triples)],
               "txmd", Cardinality(TxMd), "kvmd", Cardinality(KvMd), "hdr", Cardinality(Hdrs),
               "hdr-encode-error", Cardinality({h \in Hdrs : h.expect = "encode-error"}),
-              "exports", Cardinality(Exports), "rows", Cardinality(Rows)>>)
+              "exports", Cardinality(Exports), "rows", Cardinality(Rows), "bounds", Cardinality(Bounds),
+              "bounds-refuse", Cardinality({b \in Bounds : b.expect = "refuse"})>>)
 
 ASSUME /\ TLCSet(10, ScalarValsDef) /\ TLCSet(11, ValidStrValsDef) /\ TLCSet(12, ColValsTabDef) /\ TLCSet(13, TuplesDef)
        /\ TLCSet(1, ScalarsDef) /\ TLCSet(2, StrOut) /\ TLCSet(3, CompositesDef)
@@ -228,7 +247,7 @@ ASSUME /\ TLCSet(10, ScalarValsDef) /\ TLCSet(11, ValidStrValsDef) /\ TLCSet(12,
        /\ JsonSerialize(OutFile,
             [maxLen |-> MaxLen, scalars |-> Scalars, strings |-> Strs, composites |-> Composites,
              txmd |-> SetToSeq(TxMd), kvmd |-> SetToSeq(KvMd), hdrs |-> SetToSeq(Hdrs),
-             exports |-> SetToSeq(Exports), rowTypes |-> RowTypes, rows |-> SetToSeq(Rows)])
+             exports |-> SetToSeq(Exports), rowTypes |-> RowTypes, rows |-> SetToSeq(Rows), bounds |-> SetToSeq(Bounds)])
 
 VARIABLE x
 Init == x = 0
